@@ -345,6 +345,17 @@ def run(prog: Program, rep, tier="quick"):
     r08_2(prog, rep)
     r08_3(prog, rep)
     r08_4(prog, rep)
+    # R08.5: the per-process packed-refs cache that the conditional operations re-read under the lock is keyed to the
+    # file it was actually parsed from (same engine as R14.4)
+    from rules import c14
+    before = len(rep.obs)
+    c14.r14_4(prog, rep)
+    for o in rep.obs[before:]:
+        o.rule = "R08.5"
+    rep.rule("R08.5", "packed-refs cache: identity compared before use, recorded from the open file (fstat), read only through its accessor")
+    from sa.common import alias_guard
+    alias_guard(prog, rep, "R08.4", {"set_if_equals", "remove_if_equals", "add_if_new"})
+    rep.floor("R08.5", 5)
     rep.floor("R08.1", 7)
     rep.floor("R08.2", 5)
     rep.floor("R08.3", 3)
